@@ -1,10 +1,109 @@
+import PdshVerif.Base.Hex
+import PdshVerif.Dsh.Exit
+import PdshVerif.Dsh.ExitSpec
 import Driver.Util
 
-/-! engine stub: filled in by the owner of this engine (see FRAMEWORK.md) -/
-namespace Driver.ExitDrv
+/-!
+  line protocol of the `exit` engine (property C08)
 
-def main (_args : List String) : IO UInt32 := do
-  IO.eprintln "engine not implemented"
-  return 2
+  `pdshmodel exit model <d7><d8><d9><late>`   (four 0/1 characters: which repairs the model applies)
+      xrc HEX                                    -> "<ret> <hex>"
+      dsh S K FANOUT CMDTMO SCRIPT[;SCRIPT...]   -> "ret <int> exit <n>" | "noret exit 1"
+          SCRIPT = comma separated fields  c<0|1> o<hex> v<int> | w<e|s><n> | wnull  d<ms> t<0|1> | x1 (canceled)
+          (`w...` = the value of rcmd_destroy is exec_destroy of that wait status)
+      xd e<n> | xd s<n> | xd null                -> "<ret>"
+  `pdshmodel exit spec`
+      adm S K REFUSED OUTCOMES EXIT              -> "ok" | "bad"
+          OUTCOMES = comma separated  e<n> | s<n> | cf | to   ("-" = none)
+-/
+namespace Driver.ExitDrv
+open PdshVerif PdshVerif.Dsh PdshVerif.Dsh.Exit
+
+def parseFixes (s : String) : Option Fixes :=
+  match s.toList with
+  | [a, b, c, d] => some ⟨a = '1', b = '1', c = '1', d = '1'⟩
+  | _ => none
+
+def parseWait (s : String) : Option (Option Nat) :=
+  if s = "null" then some none
+  else
+    match s.toList with
+    | 'e' :: r => (String.ofList r).toNat?.map fun c => some (c % 256 * 256)
+    | 's' :: r => (String.ofList r).toNat?.map fun g => some (g % 128)
+    | _ => none
+
+def parseScript (fx : Fixes) (cmdtmo : Int) (spec : String) : Option Script :=
+  let fields := (spec.splitOn ",").filter (· ≠ "")
+  fields.foldl (init := some { connectOk := true, stdout := [], timedOut := false, rv := 0 })
+    fun acc f =>
+      match acc with
+      | none => none
+      | some sc =>
+        match f.toList with
+        | 'c' :: r => some { sc with connectOk := String.ofList r ≠ "0" }
+        | 'o' :: r => (Hex.decodeToChars (String.ofList r)).map fun b => { sc with stdout := b }
+        | 'v' :: r => (String.ofList r).toInt?.map fun v => { sc with rv := v }
+        | 'w' :: r => (parseWait (String.ofList r)).map fun w => { sc with rv := execDestroy fx w }
+        | 'd' :: _ => some sc
+        | 't' :: r => some { sc with timedOut := String.ofList r ≠ "0" && cmdtmo > 0 }
+        | _ => none
+
+/-- a target whose thread was canceled before it started (^C ^Z): field `x1`; state DSH_CANCELED, rc 0 -/
+def parseHost (fx : Fixes) (cmdtmo : Int) (spec : String) : Option Host :=
+  if (spec.splitOn ",").contains "x1" then some { state := .canceled, rc := 0 }
+  else (parseScript fx cmdtmo spec).map (hostOf fx)
+
+def parseHosts (fx : Fixes) (cmdtmo : Int) (s : String) : Option (List Host) :=
+  ((s.splitOn ";").filter (· ≠ "")).mapM (parseHost fx cmdtmo)
+
+def stepModel (fx : Fixes) (line : String) : String :=
+  match Driver.words line with
+  | ["xrc", hx] =>
+    match Hex.decodeToChars hx with
+    | some b => let r := extractRc fx (cstr b); s!"{r.1} {Hex.encodeChars r.2}"
+    | none => "bad-op"
+  | ["dsh", s, k, _fanout, tmo, scripts] =>
+    match tmo.toInt?, parseHosts fx (tmo.toInt?.getD 0) scripts with
+    | some _, some hs =>
+      let fl : Flags := { S := s ≠ "0", k := k ≠ "0" }
+      if fl.k && hs.any kFails then "noret exit 1"
+      else
+        let r := dshReturn fx fl hs
+        s!"ret {r} exit {exitStatus r}"
+    | _, _ => "bad-op"
+  | ["xd", how] =>
+    match parseWait how with
+    | some w => s!"{execDestroy fx w}"
+    | none => "bad-op"
+  | _ => "bad-op"
+
+def parseOutcome (s : String) : Option ExitSpec.Outcome :=
+  if s = "cf" then some .connectFailed
+  else if s = "to" then some .timedOut
+  else
+    match s.toList with
+    | 'e' :: r => (String.ofList r).toNat?.map .exited
+    | 's' :: r => (String.ofList r).toNat?.map .killed
+    | _ => none
+
+def stepSpec (line : String) : String :=
+  match Driver.words line with
+  | ["adm", s, k, refused, outs, ex] =>
+    let os := if outs = "-" then some [] else ((outs.splitOn ",").filter (· ≠ "")).mapM parseOutcome
+    match os, ex.toNat? with
+    | some os, some ex =>
+      if ExitSpec.admissible (s ≠ "0") (k ≠ "0") (refused ≠ "0") os ex then "ok" else "bad"
+    | _, _ => "bad-op"
+  | _ => "bad-op"
+
+def main (args : List String) : IO UInt32 := do
+  let stdin ← IO.getStdin
+  match args with
+  | ["model", fxs] =>
+    match parseFixes fxs with
+    | some fx => Driver.forLines stdin () (fun _ l => ((), stepModel fx l)); return 0
+    | none => IO.eprintln "usage: pdshmodel exit model <4 bits>"; return 2
+  | ["spec"] => Driver.forLines stdin () (fun _ l => ((), stepSpec l)); return 0
+  | _ => IO.eprintln "usage: pdshmodel exit model <d7 d8 d9 late>|spec"; return 2
 
 end Driver.ExitDrv
